@@ -141,3 +141,11 @@ def shift(case):
                 beh.append(dict(terms_before_t0=npre + 2, limexp=limexp, sequence=[float(x) for x in prefix + tail], got=float(res), expected=4.0))
     return dict(reproduced=bool(bad or beh), failing=bad[:2] + beh[:2],
                 statement='_shift_table keeps the newest n+1 entries (qelg); Dea recovers L + a q^k from the 3 terms retained after a guard')
+
+
+@reg('C14.dconc')
+def dconc(case):
+    import numdifftools.extrapolation as ex
+    from ndvc.concrete import dea_cases
+    cnt, bad = dea_cases(ex)
+    return dict(reproduced=bool(bad), failing=bad[:3], cases=cnt, statement='Dea on concrete sequences: finite values, error floor, agreement with dea3, transients recovered')
